@@ -591,6 +591,7 @@ func rulesC14(c *Ctx) {
 	c08Blocking(c)
 	c06ChannelOwner(c)
 	c06Acquire(c)
+	c06Pairing(c)
 	c.Rule("user-function")
 	c01Leaf(c)
 	c.Rule("fresh-executors")
